@@ -5,6 +5,7 @@ import contextlib
 import time
 
 from ..alg import Z3Alg, PyAlg, enc_formula, model_to_list, is_opb
+from .. import bigpoints
 from ..core import Run, run_shards
 from . import c01, c02, c03
 
@@ -115,7 +116,7 @@ def compare(name, p, A, B, alg, part):
         return
     ea, eb = enc_formula(alg, A), enc_formula(alg, B)
     s = z3.Solver()
-    s.set('timeout', 60000)
+    s.set('timeout', 15000 if p.get('big') else 60000)
     s.add(z3.Xor(ea, eb))
     t = time.time()
     r = str(s.check())
@@ -125,7 +126,13 @@ def compare(name, p, A, B, alg, part):
         part.case(name, 'models_differ', dict(p, _assignment=model_to_list(alg, s.model(), na)),
                   'an assignment satisfies exactly one of the two renderings')
     elif r != 'unsat':
-        part.errors.append('%s %s: unknown' % (name, p))
+        if p.get('big'):
+            part.counts['big_inconclusive'] += 1     # a size-threshold point the solver did not decide: not counted
+            part.counts[r] -= 1
+        else:
+            part.errors.append('%s %s: unknown' % (name, p))
+    elif p.get('big'):
+        part.counts['big_points'] += 1
     else:
         if na and (len(A) or len(B)):
             part.nontrivial.add((name, repr(p)))
@@ -207,6 +214,13 @@ def points(tier):
                 continue
             seen.add(key)
             yield ('lib', h.name, q)
+        # size-threshold points (satisfiable instances around 10/11, 16/17, 32/33)
+        for p in bigpoints.big_points(h.name, tier):
+            q = {k: v for k, v in p.items() if k != 'cls'}
+            key = (h.name, repr(sorted(q.items(), key=lambda kv: kv[0])))
+            if key not in seen:
+                seen.add(key)
+                yield ('lib', h.name, q)
     for argv in CLI_ARGV:
         yield ('cli', '', {'argv': argv})
 
